@@ -48,7 +48,7 @@ CHECKS = {
                 "(nil, global, Filter(generated), Filter of Filter) x configuration (none, empty, example, unrelated, well-typed, ill-typed); plus the whole "
                 "corpus under the default registry (enumerated); " + HOME_SWEEP + " (K=2 quick / 3 thorough) through Lint*Ex. Oracle: result-set invariants. Non-trivial = parseable, >=1 result above pass, and bytes edited "
                 "or registry filtered or configuration given; distinct by hash(DER, filters, config).",
-        "assumptions": COMMON_ASSUME + ["'hang' = a single Lint*Ex call exceeding 120 s",
+        "assumptions": COMMON_ASSUME + ["'hang' = a single Lint*Ex call exceeding 45 s (about 30 000 times its normal duration)",
                                          "mock leg: 90 instrumented lints (15 sources x 3 kinds x plain/configurable) registered through the public Register* API in a test binary of their own; "
                                          "generated scripts make all 16 flag combinations and all 7 statuses occur"],
     },
